@@ -10,6 +10,7 @@ import (
 	"bufio"
 	"encoding/json"
 	"fmt"
+	"github.com/buzzfeed/sso/internal/proxy"
 	"math/rand"
 	"net/http"
 	"net/url"
@@ -114,8 +115,22 @@ func yamlList(key string, xs []string) string {
 	return sb.String()
 }
 
+// placeholder is the rule an upstream without rules is loaded with when it shares a proxy with others (the loader
+// refuses a rule-less upstream; the hook removes the placeholder from the resolved configuration before proxy.New
+// reads it - which is how an upstream without rules looks to proxy.New when it is built from code)
+const placeholder = "placeholder@removed.invalid"
+
+func noRules(j *job) bool { return len(j.pol.Addresses)+len(j.pol.Domains)+len(j.pol.Groups) == 0 }
+
 func upstreamYAML(j *job, backend string) string {
 	name := strings.Split(j.host, ".")[0]
+	if noRules(j) {
+		// its neighbour in the file admits everybody: nothing of that is the rule-less upstream's business
+		decoy := fmt.Sprintf("- service: open%s\n  default:\n    from: open-%s\n    to: %s\n    options:\n%s", name, j.host, backend,
+			yamlList("allowed_email_domains", []string{"*"}))
+		return decoy + fmt.Sprintf("- service: %s\n  default:\n    from: %s\n    to: %s\n    options:\n%s", name, j.host, backend,
+			yamlList("allowed_email_addresses", []string{placeholder}))
+	}
 	return fmt.Sprintf("- service: %s\n  default:\n    from: %s\n    to: %s\n    options:\n%s%s%s",
 		name, j.host, backend,
 		yamlList("allowed_email_addresses", j.pol.Addresses), yamlList("allowed_email_domains", j.pol.Domains), yamlList("allowed_groups", j.pol.Groups))
@@ -132,7 +147,23 @@ func (f *fixture) runBatch(jobs []*job) ([]Line, error) {
 	for _, j := range jobs {
 		y.WriteString(upstreamYAML(j, f.back.Addr()))
 	}
-	p, err := world.NewProxy(world.ProxyOpts{UpstreamYAML: y.String(), ProviderURL: f.fa.URL(), DefaultSlug: slug, ValidK: validK, GraceK: 2, LifeK: 8, HTTPOnly: true})
+	shared := len(jobs) > 1
+	if !shared {
+		// alone, a rule-less upstream is written as it is: the loader must refuse it
+		y.Reset()
+		j := jobs[0]
+		name := strings.Split(j.host, ".")[0]
+		fmt.Fprintf(&y, "- service: %s\n  default:\n    from: %s\n    to: %s\n    options:\n%s%s%s", name, j.host, f.back.Addr(),
+			yamlList("allowed_email_addresses", j.pol.Addresses), yamlList("allowed_email_domains", j.pol.Domains), yamlList("allowed_groups", j.pol.Groups))
+	}
+	p, err := world.NewProxy(world.ProxyOpts{UpstreamYAML: y.String(), ProviderURL: f.fa.URL(), DefaultSlug: slug, ValidK: validK, GraceK: 2, LifeK: 8, HTTPOnly: true,
+		Tweak: func(cfgs []*proxy.UpstreamConfig) {
+			for _, c := range cfgs {
+				if len(c.AllowedEmailAddresses) == 1 && c.AllowedEmailAddresses[0] == placeholder {
+					c.AllowedEmailAddresses = nil
+				}
+			}
+		}})
 	lines := make([]Line, 0, len(jobs))
 	if err != nil {
 		// an upstream without any rule is refused when the configuration is loaded: nobody is admitted anywhere
@@ -359,7 +390,7 @@ func RunCells(in, out string, seed int64, sample, reps, workers, base int, noshu
 	var batches [][]*job
 	var cur []*job
 	for _, j := range jobs {
-		if len(j.pol.Addresses)+len(j.pol.Domains)+len(j.pol.Groups) == 0 {
+		if noRules(j) && j.n%2 == 0 {
 			batches = append(batches, []*job{j})
 			continue
 		}
